@@ -236,6 +236,9 @@ func checkC19(p *Program, r *Report) {
 	// ordinals is out of range for the last nodes
 	r.Explanation += " (capacity) presence and short-node bitmaps are built with a capacity that covers every ordinal probed (rule shared with C01)."
 	checkCapacity(p, r, "C19.capacity")
+	// String() reads every inner node through the node decoder of the lookups
+	r.Explanation += " (bitslice) the index into the short-node table is exactly the stored bits of the node, with no read beyond the node's last word (rule shared with C01/C10)."
+	checkBitSlice(p, r, "C19.bitslice")
 }
 
 func isU64Slice(t types.Type) bool {
